@@ -38,6 +38,16 @@ ASSUMPTIONS = [
 def run(prog, rep, tier):
     r5_1(prog, rep)
     r5_2(prog, rep)
+    # the levels of a grouping factor are those of a categorical term: sorted unless the data declares an order
+    # (C04's R4.3, reported here as R5.2)
+    from . import C04
+    sub = type(rep)(rep.prop)
+    C04.r4_3(prog, sub)
+    for it in sub.items:
+        it = dict(it)
+        it["rule"] = "R5.2"
+        rep.items.append(it)
+        rep.counts["R5.2"] = rep.counts.get("R5.2", 0) + 1
     shared.new_group_block(prog, rep, "R5.3")
     r5_4(prog, rep)
     r5_5(prog, rep)
@@ -151,8 +161,11 @@ def r5_4(prog, rep):
     f = prog.fn("terms.terms.Model.eval")
     loops = [n for n in walk_local(f.node) if isinstance(n, ast.For) and unparse(n.iter) == "self.group_terms" and any(
         isinstance(x, ast.Call) and isinstance(x.func, ast.Attribute) and x.func.attr == "set_data" for x in ast.walk(n))]
+    # grouping the terms by factor with itertools.groupby needs them sorted by factor (they are in formula order)
+    shared.groupby_needs_sorted(prog, rep, "R5.4", modules={"formulae.terms.terms"})
     if len(loops) != 1:
-        raise AnalysisError("Model.eval: loop over self.group_terms with set_data not found")
+        rep.defer("R5.4: Model.eval: loop over self.group_terms with set_data not found")
+        return
     lp = loops[0]
     t = unparse(lp.target)
     init = [s for s in lp.body if isinstance(s, ast.Assign) and unparse(s.targets[0]) == "encoding"]
